@@ -9,10 +9,13 @@
 (* logged views (get on every position, to_triplets, to_dense, col_index) must each    *)
 (* describe `cur`.  A "products" event (C07) must report the exact dense products of    *)
 (* `cur` for A x, A^T y, transpose() times y, the adjoint identity and scaled products. *)
-(* In a C07 history the construction / modification steps are not judged (they are     *)
-(* C06's subject): they carry the state -- the model continues from the logged content *)
-(* when it is well-formed -- so that C07 demands exactly "sparse product = dense        *)
-(* product of the same matrix".                                                        *)
+(* In a C07 history constructors and inserts are not judged (they are C06's subject):  *)
+(* they carry the state -- the model continues from the logged content when it is      *)
+(* well-formed -- so that C07 demands exactly "sparse product = dense product of the    *)
+(* same matrix".  scale and transpose ARE C07 operations: the model advances by the     *)
+(* abstract operator and the next products event (same object) is judged against it.   *)
+(* <y, A x> and <A^T y, x> are computed by the crate's Vector::dot and each compared    *)
+(* with its exact value; dx / dty are the crate's dense route to_dense() * x.           *)
 (* A constructor event starts a new history; every other event continues from `cur`.   *)
 EXTENDS TraceBase, SparseCSC
 VARIABLES l, cur
@@ -60,9 +63,11 @@ JudgeProducts(e, M) ==
        IN IF e.panic THEN "panic"
           ELSE IF ~D!SameSeq(e.ax, dax) THEN "multiply"
           ELSE IF ~D!SameSeq(e.aty, daty) THEN "transpose_multiply"
+          ELSE IF ~D!SameSeq(e.ax2, dax) \/ ~D!SameSeq(e.aty2, daty) THEN "repeated-call"
           ELSE IF ~D!SameSeq(e.tax, daty) \/ ~D!SameSeq(e.ttx, dax) THEN "explicit-transpose"
           ELSE IF e.yax # VDot(e.y, dax) \/ e.atyx # VDot(daty, e.x) \/ e.yax # e.atyx THEN "adjoint"
           ELSE IF ~D!SameSeq(e.sax, VScale(dax, e.a)) \/ ~D!SameSeq(e.saty, VScale(daty, e.a)) THEN "scale"
+          ELSE IF ~D!SameSeq(e.dx, dax) \/ ~D!SameSeq(e.dty, daty) THEN "dense-route"      \* to_dense() and Matrix * Vector
           ELSE ""
 
 Init == l = 1 /\ cur = MEmpty(0, 0) /\ TLCSet(1, 0)
@@ -77,7 +82,8 @@ Step == /\ l <= NRec
                 THEN cur' = Resync(e, cur)                                  \* nothing demanded
               ELSE LET X == Expected(e, cur)
                    IN IF e.prop = "C07"
-                        THEN cur' = Resync(e, X)                            \* state-carrying only
+                        THEN cur' = IF e.op \in {"scale", "transpose"} THEN X      \* C07 operations: judged by the next products
+                                    ELSE Resync(e, X)                         \* constructors / insert: state-carrying only
                         ELSE LET why == JudgeState(e, X)
                              IN IF why = "" THEN cur' = X
                                 ELSE Mismatch(l, e, why) /\ cur' = Resync(e, X)
